@@ -151,6 +151,9 @@ def run(chk):
     for t in range(n_script):
         r_n = rng.random()
         n = int(rng.integers(2, 61)) if r_n < 0.9 else (int(rng.integers(101, 161)) if chk.tier == "quick" else int(rng.integers(61, 501)))
+        if t % 500 == 7:                   # surrogate counts beyond any internal block size, not a multiple of a power of two
+            n = int(rng.choice([1025, 1500, 2051]))
+            chk.count("scripted.n_shuffles_gt_1024")
         a, b = ALPHAS[int(rng.integers(len(ALPHAS)))]
         alpha = a / b
         af = Fraction(alpha)
@@ -306,7 +309,7 @@ def run(chk):
                    shard=500, jobs=12)
     chk.rule = ("shuffle_test called through the module seam with (a) a scripted estimator returning prescribed surrogate values "
                 "(all tied at 0 / at the -1000 sentinel / at c, partly tied, tie-free grid, tie-free floats; observed tied / near / "
-                "above / below; alpha from 12 rationals; n_shuffles 2..60 (..500 thorough); rng as int, Generator, None; X with 1..3 "
+                "above / below; alpha from 12 rationals; n_shuffles 2..60, 101..160 (..500 thorough) and a few of 1025 / 1500 / 2051; rng as int, Generator, None; X with 1..3 "
                 "columns, Z present or None) and (b) the five real estimators spied. Distinct = distinct (alpha, n, values, observed).")
 
 
